@@ -174,17 +174,6 @@ pub fn vx_clone_from<T>(dst: &mut T, src: &T) ensures *final(dst) == *src { unim
 #[verifier::external_body]
 pub fn vx_default<T>() -> (r: T) { unimplemented!() }
 
-/// identifier `i` is attached to some stored row
-pub open spec fn vx_stored<R: Registry>(m: IMap<archetype::IdentifierRef<R>, archetype::Archetype<R>>, i: entity::Identifier) -> bool {
-    exists|k: archetype::IdentifierRef<R>, r: int| m.dom().contains(k) && 0 <= r < m[k].length && #[trigger] m[k].ids()[r] == i
-}
-
-/// W1: every table is well formed, keyed by its own key, and every stored row is reachable
-/// through the identifier attached to it
-pub open spec fn vx_tables_ok<R: Registry>(m: IMap<archetype::IdentifierRef<R>, archetype::Archetype<R>>, a: &Allocator<R>) -> bool {
-    forall|k: archetype::IdentifierRef<R>| m.dom().contains(k) ==>
-        (#[trigger] m[k]).wf() && m[k].key() == k && m[k].agrees(a)
-}
 /// W2: every identifier the allocator accepts is attached to the stored row it points at
 pub open spec fn vx_ids_stored<R: Registry>(m: IMap<archetype::IdentifierRef<R>, archetype::Archetype<R>>, a: &Allocator<R>) -> bool {
     forall|i: entity::Identifier| a.resolves(i) ==> {
